@@ -637,11 +637,15 @@ the state the handlers run on; `HostR` / `completeAllR` is the executable compos
 nested rounds) the correspondence driver runs.  `Browser.detachesCode` is what the translator reads off the code (D24b repair: the
 pending changes are detached before they are fired). -/
 
-/-- **C06 / C04 (a browser's completion delivers each pending change exactly once, whatever its handlers do).**  With the pending
-changes detached before they are fired (the code since the D24b repair), for every state `σ` the handlers run on, every way `get` /
-`set` locate this browser's `_pending_handlers` in it and every non-raising `fire` — in particular one whose handlers re-enter the
-record manager and have this very browser notified and completed again —: the changes the loop hands to `fire` are exactly the ones
-pending when it started, each once, in order; the loop does not raise. -/
+/-- **C06 / C04 (what the OUTER completion loop hands to `fire`).**  With the pending changes detached before they are fired (the code
+since the D24b repair), for every state `σ` the handlers run on, every `get` / `set` (no lens law is assumed or needed: after the
+detach the loop never reads `σ`'s pending changes again) and every non-raising `fire`: the changes **this run of the loop** hands to
+`fire` are exactly the ones pending when it started, each once, in order, and the loop does not raise — whatever `fire` does to the
+state, e.g. handlers that re-enter the record manager and have this very browser notified and completed again.
+What this does **not** say: that no change is delivered a second time by such a *nested* completion (`tracedFire` counts the outer
+loop's hand-overs only; a nested run fires whatever the nested update round queued — on the composite that is decided by stage C/O
+against `completeAllR`, see siblings S1/S5/S6), nor alternation / live = cache for the composite (not proved; `C04_alternates` is about
+`browserRunFrom`). -/
 theorem C06_completion_detached_once {σ : Type} (get : σ → PendingCh) (set : σ → PendingCh → σ)
     (fire : σ → ((String × String) × Change) → σ × Option PyExc) (hfire : ∀ s ev, (fire s ev).2 = none) (s : σ) :
     Browser.detachesCode = true
@@ -730,4 +734,65 @@ example :
   decide
 
 end
+
+/-! ## Tie: the record manager over the translated cache operations, along every history
+
+`srcCacheAfter lower evs` (`GenFacts/FnCacheRun.lean`) is the *generated* `DNSCache` after the datagrams and purges `evs`, stepped by
+`ingest` / `expire` over `srcOps` (the translated `_async_add`, `_async_remove`, `async_get_unique`, store iteration; `resetTtl` /
+`markFlush` hand-modelled on the generated representation and proved to keep `CInv`).  The twins below restate `C06_post_state` and
+`C06_flush_exact` for it, read through the translated `async_get_unique`.  `ingest` itself remains the hand-written model of
+`async_updates_from_response`. -/
+section Tie
+variable (lower : String → String)
+open Zc.Py Zc.GenFn.Cache Zc.GenFacts.FnCache Zc.GenFacts.FnCacheRun
+
+/-- the datagram step over the translated operations succeeds whenever the model's does, with corresponding results -/
+theorem ingest_source_ok (evs : List Event) (now : Ms) (recs : List Rec) (outm : IngestOut Cache)
+    (hm : ingest lower (Cache.ops lower) (cacheAfter lower evs) now recs = .ok outm) :
+    ∃ out, ingest lower (srcOps lower) (srcCacheAfter lower evs) now recs = .ok out ∧ absC out.cache = outm.cache ∧ CInv lower out.cache := by
+  obtain ⟨ha, hi⟩ := srcCacheAfter_abs lower evs
+  have h1 := ingest_gen lower (residual_ok lower) (srcCacheAfter lower evs) hi now recs
+  unfold cacheAfter at hm
+  rw [ha, hm] at h1
+  cases hr : ingest lower (genOps lower (resetTtlG lower) (markFlushG lower)) (srcCacheAfter lower evs) now recs with
+  | error e => rw [hr] at h1; cases h1
+  | ok out =>
+    rw [hr] at h1
+    simp only [Except.map, Except.ok.injEq] at h1
+    refine ⟨out, hr, ?_, ingest_inv lower (genOps_sim lower (residual_ok lower)) _ now recs hi out hr⟩
+    rw [← h1]
+    rfl
+
+/-- **C06 (post-state), for the generated cache**: after any history and any datagram, stepped through the translated operations, the
+translated `async_get_unique` of every record before and after the datagram satisfies `PostState` -/
+theorem C06_post_state_source (evs : List Event) (now : Ms) (recs : List Rec) :
+    ∃ out, ingest lower (srcOps lower) (srcCacheAfter lower evs) now recs = .ok out
+      ∧ ∀ q, PostState lower now recs q ((srcCacheAfter lower evs).async_get_unique lower q) (out.cache.async_get_unique lower q) := by
+  obtain ⟨outm, hm, hq⟩ := C06_post_state lower evs now recs
+  obtain ⟨out, ho, ha, hi⟩ := ingest_source_ok lower evs now recs outm hm
+  obtain ⟨hb, hj⟩ := srcCacheAfter_abs lower evs
+  refine ⟨out, ho, fun q => ?_⟩
+  rw [async_get_unique_eq lower _ q hj, async_get_unique_eq lower _ q hi, hb, ha]
+  exact hq q
+
+/-- **C06 (flush), for the generated cache** -/
+theorem C06_flush_exact_source (evs : List Event) (now : Ms) (recs : List Rec) (q e : Rec)
+    (hcached : (srcCacheAfter lower evs).async_get_unique lower q = some e)
+    (habsent : ∀ r ∈ recs, r.ident lower ≠ q.ident lower) :
+    ∃ out, ingest lower (srcOps lower) (srcCacheAfter lower evs) now recs = .ok out
+      ∧ (((∃ u ∈ recs, u.unique = true ∧ lower u.name = lower e.name ∧ u.type = e.type ∧ u.class_ = e.class_) ∧ now - e.created > 1000)
+            → out.cache.async_get_unique lower q = some (e.setLife now 1))
+      ∧ (¬ ((∃ u ∈ recs, u.unique = true ∧ lower u.name = lower e.name ∧ u.type = e.type ∧ u.class_ = e.class_) ∧ now - e.created > 1000)
+            → out.cache.async_get_unique lower q = some e) := by
+  obtain ⟨hb, hj⟩ := srcCacheAfter_abs lower evs
+  have hc : (cacheAfter lower evs).getUnique lower q = some e := by
+    rw [async_get_unique_eq lower _ q hj, hb] at hcached
+    exact hcached
+  obtain ⟨outm, hm, h1, h2⟩ := C06_flush_exact lower evs now recs q e hc habsent
+  obtain ⟨out, ho, ha, hi⟩ := ingest_source_ok lower evs now recs outm hm
+  refine ⟨out, ho, ?_, ?_⟩
+  · intro h; rw [async_get_unique_eq lower _ q hi, ha]; exact h1 h
+  · intro h; rw [async_get_unique_eq lower _ q hi, ha]; exact h2 h
+
+end Tie
 end Zc
